@@ -3,15 +3,21 @@
 // Size; the watcher goroutine ends with the pool).
 //
 // Every history runs against the real Pool inside its own synctest bubble. The
-// harness creates and cancels every member context itself, so its own log says
-// exactly which members have ended at any moment. The oracle (world.*) is
-// written for concurrent use: the same code judges lock-step histories,
-// hook-placed interleavings and racing goroutines.
+// harness creates every member context itself and is the only one that ends
+// them (cancel func, or a deadline that expires in the bubble's virtual time),
+// so its own log says exactly which members have ended at any moment. Member
+// shapes: cancellable live, already ended, never-ending (Done()==nil:
+// Background, WithValue(Background), WithoutCancel(cancelled parent), a custom
+// type), a deadline context, a child of another member, the same context
+// offered twice, the pool itself and a child of the pool. The oracle
+// (world.*) is written for concurrent use: the same code judges lock-step
+// histories, hook-placed interleavings and racing goroutines.
 package c20
 
 import (
 	"context"
 	"fmt"
+	"os"
 	"runtime"
 	"strconv"
 	"strings"
@@ -19,6 +25,7 @@ import (
 	"sync/atomic"
 	"testing"
 	"testing/synctest"
+	"time"
 
 	kitctx "github.com/dapr/kit/context"
 
@@ -27,50 +34,110 @@ import (
 
 var rec *mon.Rec
 
+// step is what one Advance operation sleeps (virtual time). Deadline contexts
+// expire 10ms after their creation; since the harness only ever sleeps
+// multiples of step, no harness evaluation happens exactly at a deadline.
+const (
+	step       = 15 * time.Millisecond
+	deadlineIn = 10 * time.Millisecond
+)
+
 // ---------------------------------------------------------------- operations
 
 type opKind uint8
 
 const (
 	kCancelMember opKind = iota // cancel the member context with handle H
-	kAddLive                    // Add a fresh live context (it becomes handle H)
+	kAddLive                    // Add a fresh live cancellable context (it becomes handle H)
 	kAddEnded                   // Add an already cancelled context (handle H)
 	kCancel                     // Pool.Cancel
 	kSize                       // Pool.Size
+	// extended alphabet
+	kAddNever     // Add a context whose Done() is nil; flavour = H mod 4 (Background, WithValue, WithoutCancel, custom)
+	kAddDeadline  // Add a context with a deadline 10ms ahead (ends by timer, in virtual time)
+	kAddChild     // Add a cancellable child of member P (ends when P ends)
+	kAddDup       // Add the very context of handle P again
+	kAddSelf      // Add the pool itself
+	kAddPoolChild // Add a cancellable child of the pool
+	kAdvance      // let 15ms of virtual time pass
 )
 
 type op struct {
 	K opKind
 	H int
+	P int // kAddChild / kAddDup: the handle referred to
 }
+
+const neverFlavours = "BVWU"
 
 func (o op) String() string {
+	h := strconv.Itoa(o.H)
 	switch o.K {
 	case kCancelMember:
-		return "c" + strconv.Itoa(o.H)
+		return "c" + h
 	case kAddLive:
-		return "A" + strconv.Itoa(o.H)
+		return "A" + h
 	case kAddEnded:
-		return "E" + strconv.Itoa(o.H)
+		return "E" + h
 	case kCancel:
 		return "X"
+	case kSize:
+		return "S"
+	case kAddNever:
+		return "N" + h + string(neverFlavours[o.H%4])
+	case kAddDeadline:
+		return "D" + h
+	case kAddChild:
+		return "C" + h + "<" + strconv.Itoa(o.P)
+	case kAddDup:
+		return "=" + h + "<" + strconv.Itoa(o.P)
+	case kAddSelf:
+		return "P" + h
+	case kAddPoolChild:
+		return "Q" + h
 	}
-	return "S"
+	return "T"
 }
 
-func (o op) kind() string {
+var kindNames = [...]string{"cancelmember", "addlive", "addended", "cancel", "size", "addnever", "adddeadline", "addchild", "adddup", "addself", "addpoolchild", "advance"}
+
+func (o op) kind() string { return kindNames[o.K] }
+
+func (o op) isAdd() bool {
 	switch o.K {
-	case kCancelMember:
-		return "cancelmember"
-	case kAddLive:
-		return "addlive"
-	case kAddEnded:
-		return "addended"
-	case kCancel:
-		return "cancel"
+	case kAddLive, kAddEnded, kAddNever, kAddDeadline, kAddChild, kAddDup, kAddSelf, kAddPoolChild:
+		return true
 	}
-	return "size"
+	return false
 }
+
+// ctxKind: the letter describing the context an Add operation offers.
+func (o op) ctxKind() byte {
+	switch o.K {
+	case kAddLive:
+		return 'L'
+	case kAddEnded:
+		return 'x'
+	case kAddNever:
+		return neverFlavours[o.H%4]
+	case kAddDeadline:
+		return 'D'
+	case kAddChild:
+		return 'C'
+	case kAddDup:
+		return '='
+	case kAddSelf:
+		return 'P'
+	case kAddPoolChild:
+		return 'Q'
+	}
+	return 0
+}
+
+const legend = "initial (one letter per context passed to NewPool) and context kinds: L live cancellable, x already cancelled, B context.Background(), V WithValue(Background), W WithoutCancel(cancelled parent), U custom type with nil Done(), D deadline 10ms ahead, = the previous context again; " +
+	"ops: cN cancel member N, AN Add live ctx (becomes handle N), EN Add ended ctx, NNf Add never-ending ctx of flavour f, DN Add deadline ctx, CN<P Add a child of member P, =N<P Add member P's context again, PN Add the pool itself, QN Add a child of the pool, X Cancel, S Size, T let 15ms of virtual time pass; " +
+	"after the ops every history ends with the same tail: cancel every context still live in handle order, let 1h pass if there are deadline or never-ending contexts, Size, Add, Size, Cancel, Size, Add, Size; " +
+	"events: stamp what a b (cancel-member a=handle; add-call a=handle b=live; size a=result; parked a=number of operations placed)"
 
 func seqString(seq []op) string {
 	var sb strings.Builder
@@ -83,55 +150,143 @@ func seqString(seq []op) string {
 	return sb.String()
 }
 
-func cfgString(cfg []bool) string {
-	b := make([]byte, len(cfg))
-	for i, l := range cfg {
-		if l {
-			b[i] = 'L'
-		} else {
-			b[i] = 'x'
-		}
-	}
-	return "[" + string(b) + "]"
-}
+func cfgString(cfg string) string { return "[" + cfg + "]" }
+
+func isNeverKind(k byte) bool { return k == 'B' || k == 'V' || k == 'W' || k == 'U' }
 
 // sym is the symbolic state used to enumerate operation sequences: which
-// handles exist and which of them the harness can still cancel.
-type sym struct{ live []bool }
+// handles exist, which of them the harness can still end by cancelling.
+type symH struct {
+	kind   byte
+	can    bool // live and cancellable by the harness
+	never  bool
+	parent int // kAddChild: parent handle, else -1
+	pooly  bool
+}
 
-func symOf(cfg []bool) sym { return sym{live: append([]bool{}, cfg...)} }
+type sym struct {
+	hs  []symH
+	ext bool // extended alphabet
+}
 
-// next lists the operations available in this state: cancel(h) for every
-// handle the harness has not cancelled yet, Add of a live context, Add of an
-// ended context, Cancel, Size.
+func symOf(cfg string, ext bool) sym {
+	s := sym{ext: ext}
+	for i := 0; i < len(cfg); i++ {
+		k := cfg[i]
+		if k == '=' && i == 0 {
+			k = 'L'
+		}
+		h := symH{kind: k, parent: -1}
+		switch {
+		case k == 'L' || k == 'D':
+			h.can = true
+		case isNeverKind(k):
+			h.never = true
+		}
+		s.hs = append(s.hs, h)
+	}
+	return s
+}
+
+func (s sym) dupEligible(h int) bool {
+	x := s.hs[h]
+	return !x.pooly && x.kind != '=' && (x.can || x.never)
+}
+
+// next lists the operations available in this state. Classic alphabet:
+// cancel(h) for every context the harness can still cancel, Add live, Add
+// ended, Cancel, Size. The extended alphabet adds: Add never-ending, Add
+// deadline, Add child of the lowest / highest cancellable member, Add again
+// the lowest / highest live member context, Add the pool itself, Add a child
+// of the pool, Advance.
 func (s sym) next() []op {
 	var out []op
-	for h, l := range s.live {
-		if l {
-			out = append(out, op{kCancelMember, h})
+	lo, hi := -1, -1
+	for h, x := range s.hs {
+		if x.can {
+			out = append(out, op{K: kCancelMember, H: h})
+			if !x.pooly {
+				if lo < 0 {
+					lo = h
+				}
+				hi = h
+			}
 		}
 	}
-	n := len(s.live)
-	return append(out, op{kAddLive, n}, op{kAddEnded, n}, op{kCancel, 0}, op{kSize, 0})
+	n := len(s.hs)
+	out = append(out, op{K: kAddLive, H: n}, op{K: kAddEnded, H: n})
+	if s.ext {
+		out = append(out, op{K: kAddNever, H: n}, op{K: kAddDeadline, H: n})
+		if lo >= 0 {
+			out = append(out, op{K: kAddChild, H: n, P: lo})
+			if hi != lo {
+				out = append(out, op{K: kAddChild, H: n, P: hi})
+			}
+		}
+		dlo, dhi := -1, -1
+		for h := range s.hs {
+			if s.dupEligible(h) {
+				if dlo < 0 {
+					dlo = h
+				}
+				dhi = h
+			}
+		}
+		if dlo >= 0 {
+			out = append(out, op{K: kAddDup, H: n, P: dlo})
+			if dhi != dlo {
+				out = append(out, op{K: kAddDup, H: n, P: dhi})
+			}
+		}
+		out = append(out, op{K: kAddSelf, H: n}, op{K: kAddPoolChild, H: n})
+	}
+	out = append(out, op{K: kCancel}, op{K: kSize})
+	if s.ext {
+		out = append(out, op{K: kAdvance})
+	}
+	return out
 }
 
 func (s sym) apply(o op) sym {
-	l := append([]bool{}, s.live...)
+	hs := append([]symH{}, s.hs...)
+	endFrom := func(dead func(i int) bool) {
+		gone := make([]bool, len(hs))
+		for i := range hs {
+			if dead(i) || (hs[i].parent >= 0 && gone[hs[i].parent]) {
+				gone[i] = true
+				hs[i].can = false
+			}
+		}
+	}
 	switch o.K {
 	case kCancelMember:
-		l[o.H] = false
+		endFrom(func(i int) bool { return i == o.H })
+	case kAdvance:
+		endFrom(func(i int) bool { return hs[i].kind == 'D' })
 	case kAddLive:
-		l = append(l, true)
+		hs = append(hs, symH{kind: 'L', can: true, parent: -1})
 	case kAddEnded:
-		l = append(l, false)
+		hs = append(hs, symH{kind: 'x', parent: -1})
+	case kAddNever:
+		hs = append(hs, symH{kind: o.ctxKind(), never: true, parent: -1})
+	case kAddDeadline:
+		hs = append(hs, symH{kind: 'D', can: true, parent: -1})
+	case kAddChild:
+		hs = append(hs, symH{kind: 'C', can: true, parent: o.P, pooly: hs[o.P].pooly})
+	case kAddDup:
+		hs = append(hs, symH{kind: '=', parent: -1})
+	case kAddSelf:
+		hs = append(hs, symH{kind: 'P', parent: -1, pooly: true})
+	case kAddPoolChild:
+		hs = append(hs, symH{kind: 'Q', can: true, parent: -1, pooly: true})
 	}
-	return sym{live: l}
+	return sym{hs: hs, ext: s.ext}
 }
 
-func (s sym) nLive() int {
+func (s sym) nCan() int {
 	n := 0
-	for _, l := range s.live {
-		if l {
+	for _, x := range s.hs {
+		if x.can {
 			n++
 		}
 	}
@@ -140,8 +295,8 @@ func (s sym) nLive() int {
 
 // enumerate visits prefix and every extension of it up to maxLen operations,
 // each exactly once. The slice handed to visit is reused.
-func enumerate(cfg []bool, prefix []op, maxLen int, visit func(seq []op)) {
-	s := symOf(cfg)
+func enumerate(cfg string, ext bool, prefix []op, maxLen int, visit func(seq []op)) {
+	s := symOf(cfg, ext)
 	for _, o := range prefix {
 		s = s.apply(o)
 	}
@@ -162,9 +317,9 @@ func enumerate(cfg []bool, prefix []op, maxLen int, visit func(seq []op)) {
 }
 
 // sequencesOfLen returns every sequence of exactly n operations.
-func sequencesOfLen(cfg []bool, n int) [][]op {
+func sequencesOfLen(cfg string, ext bool, n int) [][]op {
 	var out [][]op
-	enumerate(cfg, nil, n, func(seq []op) {
+	enumerate(cfg, ext, nil, n, func(seq []op) {
 		if len(seq) == n {
 			out = append(out, append([]op{}, seq...))
 		}
@@ -172,16 +327,19 @@ func sequencesOfLen(cfg []bool, n int) [][]op {
 	return out
 }
 
-func allCfgs(maxN int) [][]bool {
-	var out [][]bool
-	for n := 0; n <= maxN; n++ {
-		for mask := 0; mask < 1<<n; mask++ {
-			c := make([]bool, n)
-			for i := range c {
-				c[i] = mask&(1<<i) == 0 // mask 0 = all live first
+// allCfgs: every string of 0..maxN letters over alphabet.
+func allCfgs(maxN int, alphabet string) []string {
+	out := []string{""}
+	prev := []string{""}
+	for n := 1; n <= maxN; n++ {
+		var cur []string
+		for _, p := range prev {
+			for i := 0; i < len(alphabet); i++ {
+				cur = append(cur, p+string(alphabet[i]))
 			}
-			out = append(out, c)
 		}
+		out = append(out, cur...)
+		prev = cur
 	}
 	return out
 }
@@ -227,12 +385,31 @@ const (
 
 var classNames = [...]string{"init-live", "init-ended", "pending", "protected", "unprotected", "ignored", "void", "unused"}
 
+// neverCtx is a legal context that can never end (Done() == nil).
+type neverCtx struct{}
+
+func (neverCtx) Deadline() (time.Time, bool) { return time.Time{}, false }
+func (neverCtx) Done() <-chan struct{}       { return nil }
+func (neverCtx) Err() error                  { return nil }
+func (neverCtx) Value(any) any               { return nil }
+
+type ctxKey struct{}
+
 type handle struct {
-	id     int
-	ctx    context.Context
-	cancel context.CancelFunc
-	ended  bool // by the harness's own log (set before the cancel func is called)
-	cls    class
+	id       int
+	kind     byte
+	ctx      context.Context
+	cancel   context.CancelFunc // nil: the harness cannot end it
+	ended    bool               // ended by the harness (set before the cancel func is called) or created ended
+	timed    bool
+	deadline time.Time
+	expired  bool    // expiry already logged
+	parent   *handle // child: ends when parent ends
+	same     *handle // the same context as that handle
+	isPool   bool    // the pool's own context
+	pooly    bool    // the pool itself or derived from it
+	never    bool
+	cls      class
 }
 
 type evt struct {
@@ -244,7 +421,7 @@ type evt struct {
 type world struct {
 	idx  int
 	mode string
-	cfg  []bool
+	cfg  string
 	seq  []op
 	desc string // extra parameters (hook/k/m, phases) for the replay
 
@@ -254,6 +431,7 @@ type world struct {
 	mu      sync.Mutex
 	clk     int64
 	hs      []*handle
+	poolH   *handle // pseudo handle standing for the pool's own context (parent of pool children)
 	evs     []evt
 	lo      int // contexts certainly accepted so far (0 after Cancel)
 	hi      int // lo + contexts possibly accepted
@@ -272,6 +450,7 @@ type world struct {
 	doneSeen  bool
 	wasLive   bool // the pool was observed live at a quiescent point
 	placedAny bool
+	special   bool // a never-ending / deadline / derived / pool-derived context took part
 
 	// hook side
 	armHook  string
@@ -309,7 +488,14 @@ func (w *world) dump() []string {
 func (w *world) handlesString() []string {
 	var out []string
 	for _, h := range w.hs {
-		out = append(out, fmt.Sprintf("h%d %s ended=%v", h.id, classNames[h.cls], h.ended))
+		s := fmt.Sprintf("h%d kind=%c %s self-ended=%v", h.id, h.kind, classNames[h.cls], h.ended)
+		if h.parent != nil && !h.parent.isPool {
+			s += fmt.Sprintf(" child-of=h%d", h.parent.id)
+		}
+		if h.same != nil {
+			s += fmt.Sprintf(" same-as=h%d", h.same.id)
+		}
+		out = append(out, s)
 	}
 	return out
 }
@@ -322,7 +508,7 @@ func (w *world) violationLocked(sig, msg string) {
 	w.viol = true
 	rec.Violation(w.idx, sig, msg, map[string]any{
 		"mode": w.mode, "initial": cfgString(w.cfg), "ops": seqString(w.seq), "params": w.desc,
-		"legend":  "initial: L live / x already cancelled; ops: cN cancel member N, AN Add live ctx (handle N), EN Add ended ctx, X Cancel, S Size; after the ops every history ends with the same tail: cancel every context still live in handle order, Size, Add, Size, Cancel, Size, Add, Size; events: stamp what a b (cancel-member a=handle; add-call a=handle b=live; size a=result; parked a=number of operations placed)",
+		"legend":  legend,
 		"handles": w.handlesString(), "events": w.dump(),
 	})
 }
@@ -336,11 +522,38 @@ func isDone(p *kitctx.Pool) bool {
 	}
 }
 
+// endedLocked: has the context of h ended, by the harness's own knowledge?
+// (its cancel func was called - logged before the call -, it was created
+// ended, its deadline has passed in virtual time, an ancestor ended, or - for
+// the pool's own context - Done() was observed). Must run inside the bubble.
+func (w *world) endedLocked(h *handle) bool {
+	for x := h; x != nil; {
+		if x.same != nil {
+			x = x.same
+			continue
+		}
+		if x.ended {
+			return true
+		}
+		if x.timed && !time.Now().Before(x.deadline) {
+			return true
+		}
+		if x.isPool {
+			return w.doneSeen
+		}
+		x = x.parent
+	}
+	return false
+}
+
 func protected(h *handle) bool { return h.cls == clsInitLive || h.cls == clsProtected }
 
+// liveProtectedLocked: a protected member that has not ended. Contexts derived
+// from the pool itself are left out: they end with the pool, so they can
+// neither make Done() early nor (conservatively) protect a later Add.
 func (w *world) liveProtectedLocked() *handle {
 	for _, h := range w.hs {
-		if protected(h) && !h.ended {
+		if protected(h) && !h.pooly && !w.endedLocked(h) {
 			return h
 		}
 	}
@@ -349,7 +562,7 @@ func (w *world) liveProtectedLocked() *handle {
 
 func (w *world) liveMaybeTrackedLocked() *handle {
 	for _, h := range w.hs {
-		if (protected(h) || h.cls == clsAmbiguous || h.cls == clsPending) && !h.ended {
+		if (protected(h) || h.cls == clsAmbiguous || h.cls == clsPending) && !w.endedLocked(h) {
 			return h
 		}
 	}
@@ -377,8 +590,18 @@ func (w *world) observeDoneLocked(where string) {
 		if h.cls == clsInitLive {
 			kind = "live-initial-member"
 		}
+		switch {
+		case h.never:
+			kind = "never-ending-" + kind[5:]
+		case h.timed:
+			kind = "unexpired-deadline-" + kind[5:]
+		case h.parent != nil:
+			kind = "live-child-" + kind[5:]
+		case h.same != nil:
+			kind = "live-twice-offered-" + kind[5:]
+		}
 		w.violationLocked("early-done/"+kind+"/"+w.ctx(),
-			fmt.Sprintf("pool.Done() observed (%s) while protected member h%d (%s) has not ended and Cancel was never called", where, h.id, classNames[h.cls]))
+			fmt.Sprintf("pool.Done() observed (%s) while protected member h%d (kind %c, %s) has not ended and Cancel was never called", where, h.id, h.kind, classNames[h.cls]))
 		return
 	}
 	count("done.after_last_member", 1)
@@ -394,28 +617,73 @@ func (w *world) checkDone(where string) {
 	w.mu.Unlock()
 }
 
-func (w *world) newHandle(live bool) *handle {
-	c, cancel := context.WithCancel(context.Background())
-	h := &handle{ctx: c, cancel: cancel, cls: clsUnused}
-	if !live {
-		cancel()
+// newHandle builds a context of the given kind. ref is the member referred to
+// by 'C' (child of) and '=' (same as).
+func (w *world) newHandle(kind byte, ref *handle) *handle {
+	h := &handle{kind: kind, cls: clsUnused}
+	switch kind {
+	case 'L':
+		h.ctx, h.cancel = context.WithCancel(context.Background())
+	case 'x':
+		h.ctx, h.cancel = context.WithCancel(context.Background())
+		h.cancel()
 		h.ended = true
+	case 'B':
+		h.ctx, h.never = context.Background(), true
+	case 'V':
+		h.ctx, h.never = context.WithValue(context.Background(), ctxKey{}, 1), true
+	case 'W':
+		pc, pcancel := context.WithCancel(context.Background())
+		pcancel()
+		h.ctx, h.never = context.WithoutCancel(pc), true
+	case 'U':
+		h.ctx, h.never = neverCtx{}, true
+	case 'D':
+		h.deadline = time.Now().Add(deadlineIn)
+		h.timed = true
+		h.ctx, h.cancel = context.WithDeadline(context.Background(), h.deadline)
+	case 'C':
+		h.ctx, h.cancel = context.WithCancel(ref.ctx)
+		h.parent, h.pooly = ref, ref.pooly
+	case '=':
+		for ref.same != nil {
+			ref = ref.same
+		}
+		h.ctx, h.same, h.pooly, h.never = ref.ctx, ref, ref.pooly, ref.never
+	case 'P':
+		h.ctx, h.isPool, h.pooly = w.p, true, true
+	case 'Q':
+		h.ctx, h.cancel = context.WithCancel(w.p)
+		h.parent, h.pooly = w.poolH, true
+	default:
+		panic("c20 harness: unknown context kind " + string(kind))
 	}
 	w.mu.Lock()
 	h.id = len(w.hs)
 	w.hs = append(w.hs, h)
+	if kind != 'L' && kind != 'x' {
+		w.special = true
+	}
 	w.mu.Unlock()
+	if kind != 'L' && kind != 'x' {
+		count("ctxkind."+string(kind), 1)
+	}
 	return h
 }
 
 func (w *world) cancelMember(h *handle) {
+	for h.same != nil {
+		h = h.same
+	}
 	w.mu.Lock()
-	if !h.ended {
-		h.ended = true // logged BEFORE the context really ends
+	if !w.endedLocked(h) {
 		w.logLocked("cancel-member", h.id, 0)
 	}
+	h.ended = true // logged BEFORE the context really ends
 	w.mu.Unlock()
-	h.cancel()
+	if h.cancel != nil {
+		h.cancel()
+	}
 	count("op.cancelmember", 1)
 	w.checkDone("after-cancel-member")
 }
@@ -434,13 +702,16 @@ func (w *world) add(h *handle) {
 		h.cls = clsPending
 	}
 	w.epoch++
-	w.logLocked("add-call", h.id, b2i(!h.ended))
+	w.logLocked("add-call", h.id, b2i(!w.endedLocked(h)))
 	w.mu.Unlock()
 
 	w.p.Add(h.ctx)
 
 	w.mu.Lock()
 	w.epoch++
+	// A context offered twice, the pool itself and a child of the pool may or may not be counted
+	// as a member of their own: only the upper bound of Size moves.
+	certain := h.same == nil && !h.pooly
 	switch {
 	case ignore:
 		h.cls = clsIgnored
@@ -465,10 +736,15 @@ func (w *world) add(h *handle) {
 			count("add.overlapped_cancel", 1)
 		case w.liveProtectedLocked() != nil:
 			h.cls = clsProtected
-			w.lo++
+			if certain {
+				w.lo++
+			}
 			w.hi++
 			w.lastAdd = "accepted"
 			count("add.protected", 1)
+			if h.kind != 'L' && h.kind != 'x' {
+				count("add.protected.kind_"+string(h.kind), 1)
+			}
 		default:
 			h.cls = clsAmbiguous
 			w.hi++
@@ -478,14 +754,30 @@ func (w *world) add(h *handle) {
 	}
 	w.logLocked("add-ret:"+classNames[h.cls], h.id, 0)
 	if w.placing != "" {
-		kind := "addlive"
-		if h.ended {
-			kind = "addended"
-		}
-		count("outcome."+w.placing+"."+kind+"."+w.lastAdd, 1)
+		count("outcome."+w.placing+"."+addKindName(h.kind)+"."+w.lastAdd, 1)
 	}
 	w.mu.Unlock()
 	w.checkDone("after-add")
+}
+
+func addKindName(k byte) string {
+	switch k {
+	case 'L':
+		return "addlive"
+	case 'x':
+		return "addended"
+	case 'D':
+		return "adddeadline"
+	case 'C':
+		return "addchild"
+	case '=':
+		return "adddup"
+	case 'P':
+		return "addself"
+	case 'Q':
+		return "addpoolchild"
+	}
+	return "addnever"
 }
 
 func (w *world) cancelPool() {
@@ -556,15 +848,36 @@ func (w *world) size() {
 		if w.hi > w.lo {
 			switch s {
 			case w.hi:
-				count("size.unprotected_add_counted", 1)
+				count("size.uncertain_add_counted", 1)
 			case w.lo:
-				count("size.unprotected_add_not_counted", 1)
+				count("size.uncertain_add_not_counted", 1)
 			default:
-				count("size.unprotected_adds_partly_counted", 1)
+				count("size.uncertain_adds_partly_counted", 1)
 			}
 		}
 		w.lo, w.hi = s, s
 	}
+}
+
+// advance lets virtual time pass. Never called while a client call may be
+// blocked on the pool's RWMutex (a mutex wait is not durable: time would be
+// frozen and the sleep would never end).
+func (w *world) advance(d time.Duration) {
+	w.mu.Lock()
+	w.logLocked("advance-ms", int(d/time.Millisecond), 0)
+	w.mu.Unlock()
+	time.Sleep(d)
+	w.mu.Lock()
+	for _, h := range w.hs {
+		if h.timed && !h.expired && !h.ended && !time.Now().Before(h.deadline) {
+			h.expired = true
+			w.logLocked("deadline-expired", h.id, 0)
+			count("deadline.expired_in_virtual_time", 1)
+		}
+	}
+	w.mu.Unlock()
+	count("op.advance", 1)
+	w.checkDone("after-advance")
 }
 
 // quiescent is called when every goroutine of the bubble other than the caller
@@ -601,8 +914,16 @@ func (w *world) quiescent(where string) {
 				"every context ever accepted or possibly accepted has ended and every goroutine is parked, but pool.Done() is not closed")
 		}
 	case w.liveProtectedLocked() == nil:
-		// only contexts whose Add raced the end of the last protected member are live: both outcomes are legal
-		if done {
+		// only contexts whose Add raced the end of the last protected member, or contexts derived
+		// from the pool itself, are live: both outcomes are legal
+		if h := w.liveMaybeTrackedLocked(); h.pooly {
+			if done {
+				count("poolderived.pool_done", 1)
+			} else {
+				count("poolderived.pool_stays_live", 1)
+				rec.Observe("the pool itself (or a child of it) was offered as a member and every other member has ended: the pool stays live until Cancel (the watcher waits for the pool's own Done). The statement does not demand either outcome (such a member ends exactly when the pool does), so this is counted under poolderived.* and not judged")
+			}
+		} else if done {
 			count("unprotected.pool_done_while_live", 1)
 			rec.Observe("a context whose Add overlapped or followed the end of the last protected member was still live when the pool ended (e.g. Add placed at pool.exit / pool.unlocked: appended and counted by Size, but never waited for): allowed by the statement, counted under unprotected.pool_done_while_live, not judged")
 		} else {
@@ -613,6 +934,15 @@ func (w *world) quiescent(where string) {
 		if !done {
 			w.wasLive = true
 			count("quiescent.live", 1)
+			onlyNever := true
+			for _, h := range w.hs {
+				if protected(h) && !h.pooly && !h.never && !w.endedLocked(h) {
+					onlyNever = false
+				}
+			}
+			if onlyNever {
+				count("never.pool_live_on_never_ending_member_only", 1)
+			}
 		}
 	}
 }
@@ -653,46 +983,59 @@ func (w *world) hook(name string) {
 
 // ---------------------------------------------------------------- running a history
 
-func (w *world) exec(o op) {
-	switch o.K {
-	case kCancelMember:
+// prep creates the context an Add operation offers (always on the harness's
+// main goroutine, so that handle numbers are those of the plan).
+func (w *world) prep(o op) *handle {
+	if !o.isAdd() {
+		return nil
+	}
+	var ref *handle
+	if o.K == kAddChild || o.K == kAddDup {
+		ref = w.hs[o.P]
+	}
+	h := w.newHandle(o.ctxKind(), ref)
+	if h.id != o.H {
+		rec.Fatalf("c20 harness: operation %s created handle %d", o, h.id)
+	}
+	return h
+}
+
+func (w *world) do(o op, h *handle) {
+	switch {
+	case o.K == kCancelMember:
 		w.cancelMember(w.hs[o.H])
-	case kAddLive, kAddEnded:
-		h := w.newHandle(o.K == kAddLive)
+	case o.isAdd():
 		w.add(h)
 		count("op."+o.kind(), 1)
-	case kCancel:
+	case o.K == kCancel:
 		w.cancelPool()
-	case kSize:
+	case o.K == kSize:
 		w.size()
+	case o.K == kAdvance:
+		w.advance(step)
 	}
 }
+
+func (w *world) exec(o op) { w.do(o, w.prep(o)) }
 
 // execAtExit issues o while the watcher is parked at pool.exit, where it holds
 // the read lock: anything that takes the lock runs in its own goroutine and
 // the harness waits (stack-snapshot quiescence, a mutex wait is not durable)
 // until it has returned or is blocked on the RWMutex.
 func (w *world) execAtExit(o op) bool {
-	if o.K == kCancelMember {
+	switch o.K {
+	case kCancelMember:
 		w.exec(o)
 		return true
+	case kAdvance:
+		count("exit.advance_skipped", 1) // time cannot pass while a call may be parked on the RWMutex
+		return true
 	}
-	var h *handle
-	if o.K == kAddLive || o.K == kAddEnded {
-		h = w.newHandle(o.K == kAddLive)
-	}
+	h := w.prep(o)
 	w.wg.Add(1)
 	go func() {
 		defer w.wg.Done()
-		switch o.K {
-		case kAddLive, kAddEnded:
-			w.add(h)
-			count("op."+o.kind(), 1)
-		case kCancel:
-			w.cancelPool()
-		case kSize:
-			w.size()
-		}
+		w.do(o, h)
 	}()
 	qi := mon.Quiesce()
 	if !qi.OK {
@@ -718,10 +1061,11 @@ type runOpts struct {
 type outcome struct {
 	nontrivial bool
 	placed     bool
+	special    bool
 	inconc     string
 }
 
-func runHistory(t *testing.T, idx int, mode string, cfg []bool, seq []op, o runOpts) outcome {
+func runHistory(t *testing.T, idx int, mode string, cfg string, seq []op, o runOpts) outcome {
 	w := &world{idx: idx, mode: mode, cfg: cfg, seq: append([]op{}, seq...), armHook: o.hook, armN: o.k, m: o.m, yield: o.yield, lastAdd: "none"}
 	if o.hook != "" {
 		w.desc = fmt.Sprintf("park at %s hit %d, %d operation(s) placed there", o.hook, o.k, o.m)
@@ -738,28 +1082,42 @@ func runHistory(t *testing.T, idx int, mode string, cfg []bool, seq []op, o runO
 	res := mon.Bubble(t, func() {
 		w.resume = make(chan struct{})
 		w.stop = make(chan struct{})
+		w.poolH = &handle{id: -1, kind: 'P', isPool: true, pooly: true}
 		hk := w.hook
 		kitctx.VerifHook.Store(&hk)
 		defer kitctx.VerifHook.Store(nil)
 
 		ctxs := make([]context.Context, len(cfg))
-		nLive := 0
-		for i, live := range cfg {
-			h := w.newHandle(live)
-			if live {
-				h.cls = clsInitLive
-				nLive++
-			} else {
+		lo, hi := 0, 0
+		for i := 0; i < len(cfg); i++ {
+			k := cfg[i]
+			var ref *handle
+			if k == '=' {
+				if i == 0 {
+					k = 'L'
+				} else {
+					ref = w.hs[i-1]
+				}
+			}
+			h := w.newHandle(k, ref)
+			if w.endedLocked(h) {
 				h.cls = clsInitDropped
+			} else {
+				h.cls = clsInitLive
+				hi++
+				if h.same == nil {
+					lo++ // the same context passed twice may or may not count twice
+				}
 			}
 			ctxs[i] = h.ctx
 		}
-		w.lo, w.hi = nLive, nLive
+		w.lo, w.hi = lo, hi
 		w.mu.Lock()
-		w.logLocked("new-pool live/total", nLive, len(cfg))
+		w.logLocked("new-pool live/total", hi, len(cfg))
 		w.mu.Unlock()
 		w.p = kitctx.NewPool(ctxs...)
 		w.pp.Store(w.p)
+		w.poolH.ctx = w.p
 		w.wg.Add(1)
 		go func() {
 			defer w.wg.Done()
@@ -866,7 +1224,8 @@ func (w *world) placement(seq []op, i int) (int, string) {
 }
 
 // runPhases: the operations of one phase are issued by one goroutine each,
-// released together; between phases the bubble is quiescent.
+// released together; between phases the bubble is quiescent. A phase that
+// consists of an Advance is carried out by the harness's main goroutine.
 func (w *world) runPhases(phases [][]op) string {
 	synctest.Wait()
 	w.quiescent("start")
@@ -874,28 +1233,21 @@ func (w *world) runPhases(phases [][]op) string {
 		if w.violated() {
 			return ""
 		}
+		if len(ph) == 1 && ph[0].K == kAdvance {
+			w.advance(step)
+			synctest.Wait()
+			w.quiescent("phase-advance")
+			continue
+		}
 		start := make(chan struct{})
 		var wg sync.WaitGroup
 		for _, o := range ph {
-			var h *handle
-			if o.K == kAddLive || o.K == kAddEnded {
-				h = w.newHandle(o.K == kAddLive)
-			}
+			h := w.prep(o)
 			wg.Add(1)
 			go func() {
 				defer wg.Done()
 				<-start
-				switch o.K {
-				case kCancelMember:
-					w.cancelMember(w.hs[o.H])
-				case kAddLive, kAddEnded:
-					w.add(h)
-					count("op."+o.kind(), 1)
-				case kCancel:
-					w.cancelPool()
-				case kSize:
-					w.size()
-				}
+				w.do(o, h)
 			}()
 		}
 		synctest.Wait()
@@ -909,13 +1261,15 @@ func (w *world) runPhases(phases [][]op) string {
 	return ""
 }
 
-// tail ends every history the same way: every member still live is cancelled
-// (the pool must then be done), a context offered after the end must not
-// change Size, Cancel makes Size zero, and a context offered after Cancel must
-// not change it either.
+// tail ends every history the same way: every context the harness can still
+// end is cancelled, time passes (deadlines expire; a pool kept alive by a
+// never-ending member must survive that), then Size, a further offer, Cancel
+// (the pool must be done, Size zero), and an offer after Cancel that must not
+// change Size. The rules are those of quiescent() / size() / add().
 func (w *world) tail() string {
 	w.mu.Lock()
 	w.armHook = ""
+	hs := append([]*handle{}, w.hs...)
 	w.mu.Unlock()
 	if w.parked.Load() {
 		// the sequence ended while the watcher was parked (placement consumed it)
@@ -924,33 +1278,52 @@ func (w *world) tail() string {
 	}
 	synctest.Wait()
 	w.quiescent("tail-start")
-	for i := 0; i < len(w.hs) && !w.violated(); i++ {
-		h := w.hs[i]
-		if h.ended {
+	longWait := false
+	for _, h := range hs {
+		if w.violated() {
+			return ""
+		}
+		if h.timed || h.never {
+			longWait = true
+		}
+		w.mu.Lock()
+		skip := h.cancel == nil || w.endedLocked(h)
+		w.mu.Unlock()
+		if skip {
 			continue
 		}
 		w.cancelMember(h)
 		synctest.Wait()
 		w.quiescent("tail-cancel")
 	}
+	if longWait {
+		w.advance(time.Hour)
+		synctest.Wait()
+		w.quiescent("tail-advance")
+	}
 	if w.violated() {
 		return ""
 	}
-	// all offered contexts have ended: the pool must be done (quiescent() above demanded it)
-	if !isDone(w.p) {
-		w.mu.Lock()
-		w.violationLocked("not-done-at-quiescence/after-last-member/"+w.ctx(), "all contexts ended, pool not done")
-		w.mu.Unlock()
-		return ""
+	w.mu.Lock()
+	doneNow := w.doneSeen
+	w.mu.Unlock()
+	if doneNow {
+		count("tail.pool_done_before_cancel", 1)
+	} else {
+		count("tail.pool_live_until_cancel", 1)
 	}
 	w.size()
-	late := w.newHandle(true)
+	late := w.newHandle('L', nil)
 	w.add(late)
-	count("tail.add_after_end", 1)
+	if doneNow {
+		count("tail.add_after_end", 1)
+	}
 	w.size()
 	w.cancelPool()
+	synctest.Wait()
+	w.quiescent("tail-cancel-pool")
 	w.size()
-	late2 := w.newHandle(true)
+	late2 := w.newHandle('L', nil)
 	w.add(late2)
 	count("tail.add_after_cancel", 1)
 	w.size()
@@ -974,11 +1347,15 @@ func (w *world) cleanup() {
 	}
 	close(w.stop)
 	w.wg.Wait()
-	if w.violated() {
-		// let a watcher that is merely behind finish; a leak is not reported twice
-		for _, h := range hs {
+	// Release what the harness created: children of the pool or of a custom context may own a
+	// propagation goroutine, deadline contexts own a timer.
+	for _, h := range hs {
+		if h.cancel != nil {
 			h.cancel()
 		}
+	}
+	if w.violated() {
+		// let a watcher that is merely behind finish; a leak is not reported twice
 		w.p.Cancel()
 	}
 	synctest.Wait()
@@ -995,7 +1372,7 @@ func finish(w *world, res mon.BubbleResult, inconc string) outcome {
 		w.mu.Lock()
 		if kit && !w.viol {
 			w.violationLocked("watcher-left-behind/"+w.ctx(),
-				"the pool ended (or was cancelled) and every member ended, but a goroutine of the pool is still blocked at the end of the history: "+res.Deadlock+"; "+strings.Join(res.Stacks, " || "))
+				"the pool was cancelled and every member the harness can end has ended, but a goroutine of the pool is still blocked at the end of the history: "+res.Deadlock+"; "+strings.Join(res.Stacks, " || "))
 		} else if !kit {
 			inconc = "bubble ended with harness goroutines left: " + res.Deadlock + " " + strings.Join(res.Stacks, " || ")
 		}
@@ -1015,8 +1392,8 @@ func finish(w *world, res mon.BubbleResult, inconc string) outcome {
 		rec.Inconclusive(w.idx, inconc, map[string]any{"initial": cfgString(w.cfg), "ops": seqString(w.seq), "params": w.desc})
 		return outcome{inconc: inconc}
 	}
-	out := outcome{nontrivial: w.wasLive || w.placedAny, placed: w.placedAny}
-	if !w.viol && out.nontrivial && sampled[w.mode] < 1 && (w.placedAny || (w.mode != "hook" && w.mode != "randhook")) && len(w.seq) >= 4 && rec.WantSample() {
+	out := outcome{nontrivial: w.wasLive || w.placedAny, placed: w.placedAny, special: w.special}
+	if !w.viol && out.nontrivial && sampled[w.mode] < 1 && (w.placedAny || (w.mode != "hook" && w.mode != "randhook" && w.mode != "exthook")) && len(w.seq) >= 3 && (w.special || (w.mode != "ext" && w.mode != "exthook")) && rec.WantSample() {
 		sampled[w.mode]++ // one written-out history per mode and child
 		rec.Sample(map[string]any{"mode": w.mode, "initial": cfgString(w.cfg), "ops": seqString(w.seq), "params": w.desc, "events": w.dump()})
 	}
@@ -1028,8 +1405,9 @@ var sampled = map[string]int{}
 // ---------------------------------------------------------------- plans
 
 type plan struct {
-	mode   string // lockstep | hook | burst | randhook | racing
-	cfg    []bool
+	mode   string // lockstep | hook | ext | exthook | burst | randhook | racing
+	cfg    string
+	ext    bool // extended alphabet
 	prefix []op
 	short  bool // visit only the sequences shorter than the group prefix length
 	maxLen int
@@ -1037,9 +1415,13 @@ type plan struct {
 	k, m   int
 }
 
+func (p plan) enumerated() bool {
+	return p.mode == "lockstep" || p.mode == "hook" || p.mode == "ext" || p.mode == "exthook"
+}
+
 func (p plan) String() string {
 	s := p.mode + " initial=" + cfgString(p.cfg)
-	if p.mode == "lockstep" || p.mode == "hook" {
+	if p.enumerated() {
 		if p.short {
 			s += fmt.Sprintf(" all sequences of length 0..%d", p.maxLen)
 		} else {
@@ -1054,27 +1436,38 @@ func (p plan) String() string {
 
 var hookPoints = []string{"pool.waited", "pool.exit", "pool.unlocked"}
 
+const (
+	classicKinds = "Lx"
+	extKinds     = "LxBUD" // initial kinds of the extended enumerations (V, W and = come with the seeded modes and through Add)
+	seededKinds  = "LLLLLLxxBVWUDD="
+)
+
 type space struct {
-	seqN, seqL, seqG    int // lock-step: initial contexts <= N, sequences <= L, group prefix length G
-	hookN, hookL, hookG int
-	hookK               int
-	nBurst, nRandHook   int
-	nRacing             int
+	seqN, seqL, seqG          int // lock-step: initial contexts <= N, sequences <= L, group prefix length G
+	hookN, hookL, hookG       int
+	hookK                     int
+	extN, extL, extG          int // extended alphabet, lock-step
+	exthookN, exthookL        int // extended alphabet, hook placement (k=1, m=1..2)
+	nBurst, nRandHook, nRacin int
 }
 
 func theSpace() space {
 	if mon.Thorough() {
-		return space{seqN: 4, seqL: 7, seqG: 3, hookN: 3, hookL: 5, hookG: 2, hookK: 3, nBurst: 60000, nRandHook: 120000, nRacing: 150000}
+		return space{seqN: 4, seqL: 7, seqG: 3, hookN: 3, hookL: 5, hookG: 2, hookK: 3,
+			extN: 2, extL: 4, extG: 2, exthookN: 1, exthookL: 4,
+			nBurst: 60000, nRandHook: 120000, nRacin: 150000}
 	}
-	return space{seqN: 3, seqL: 5, seqG: 2, hookN: 2, hookL: 4, hookG: 1, hookK: 2, nBurst: 2000, nRandHook: 4000, nRacing: 5000}
+	return space{seqN: 3, seqL: 5, seqG: 2, hookN: 2, hookL: 4, hookG: 1, hookK: 2,
+		extN: 2, extL: 3, extG: 1, exthookN: 1, exthookL: 3,
+		nBurst: 2000, nRandHook: 4000, nRacin: 5000}
 }
 
-func groups(mode string, cfgs [][]bool, L, G int, hook string, k, m int) []plan {
+func groups(mode string, cfgs []string, ext bool, L, G int, hook string, k, m int) []plan {
 	var ps []plan
 	for _, cfg := range cfgs {
-		ps = append(ps, plan{mode: mode, cfg: cfg, short: true, maxLen: G - 1, hook: hook, k: k, m: m})
-		for _, pre := range sequencesOfLen(cfg, G) {
-			ps = append(ps, plan{mode: mode, cfg: cfg, prefix: pre, maxLen: L, hook: hook, k: k, m: m})
+		ps = append(ps, plan{mode: mode, cfg: cfg, ext: ext, short: true, maxLen: G - 1, hook: hook, k: k, m: m})
+		for _, pre := range sequencesOfLen(cfg, ext, G) {
+			ps = append(ps, plan{mode: mode, cfg: cfg, ext: ext, prefix: pre, maxLen: L, hook: hook, k: k, m: m})
 		}
 	}
 	return ps
@@ -1082,15 +1475,21 @@ func groups(mode string, cfgs [][]bool, L, G int, hook string, k, m int) []plan 
 
 func plans() []plan {
 	sp := theSpace()
-	ps := groups("lockstep", allCfgs(sp.seqN), sp.seqL, sp.seqG, "", 0, 0)
+	ps := groups("lockstep", allCfgs(sp.seqN, classicKinds), false, sp.seqL, sp.seqG, "", 0, 0)
 	for _, h := range hookPoints {
 		for k := 1; k <= sp.hookK; k++ {
 			if k > 1 && h != "pool.waited" {
 				break // the watcher leaves its loop exactly once
 			}
 			for m := 1; m <= 2; m++ {
-				ps = append(ps, groups("hook", allCfgs(sp.hookN), sp.hookL, sp.hookG, h, k, m)...)
+				ps = append(ps, groups("hook", allCfgs(sp.hookN, classicKinds), false, sp.hookL, sp.hookG, h, k, m)...)
 			}
+		}
+	}
+	ps = append(ps, groups("ext", allCfgs(sp.extN, extKinds), true, sp.extL, sp.extG, "", 0, 0)...)
+	for _, h := range hookPoints {
+		for m := 1; m <= 2; m++ {
+			ps = append(ps, groups("exthook", allCfgs(sp.exthookN, extKinds), true, sp.exthookL, 1, h, 1, m)...)
 		}
 	}
 	for i := 0; i < sp.nBurst; i++ {
@@ -1099,41 +1498,71 @@ func plans() []plan {
 	for i := 0; i < sp.nRandHook; i++ {
 		ps = append(ps, plan{mode: "randhook"})
 	}
-	for i := 0; i < sp.nRacing; i++ {
+	for i := 0; i < sp.nRacin; i++ {
 		ps = append(ps, plan{mode: "racing"})
 	}
 	return ps
 }
 
-func randCfg(rng *mon.RNG, maxN int) []bool {
-	cfg := make([]bool, rng.Range(0, maxN))
-	for i := range cfg {
-		cfg[i] = rng.Chance(3, 4)
+func randCfg(rng *mon.RNG, maxN int) string {
+	b := make([]byte, rng.Range(0, maxN))
+	for i := range b {
+		b[i] = seededKinds[rng.Intn(len(seededKinds))]
 	}
-	return cfg
+	return string(b)
 }
 
-// randSeq draws a sequence of n operations; cancellations are favoured so that
-// pools really end, and an Add is favoured right after the last live member
-// was cancelled.
-func randSeq(rng *mon.RNG, cfg []bool, n int) []op {
-	s := symOf(cfg)
+// weights of the operation kinds in the seeded modes (cancellations are
+// favoured so that pools really end).
+var opWeight = [...]int{kCancelMember: 36, kAddLive: 16, kAddEnded: 6, kCancel: 4, kSize: 12,
+	kAddNever: 6, kAddDeadline: 4, kAddChild: 5, kAddDup: 3, kAddSelf: 1, kAddPoolChild: 2, kAdvance: 5}
+
+// pickOp draws one of the available operations: first the kind by weight, then
+// uniformly among the operations of that kind. skip filters operations out.
+func pickOp(rng *mon.RNG, nx []op, skip func(op) bool) (op, bool) {
+	var total int
+	avail := [len(opWeight)]int{}
+	for _, o := range nx {
+		if skip != nil && skip(o) {
+			continue
+		}
+		if avail[o.K] == 0 {
+			total += opWeight[o.K]
+		}
+		avail[o.K]++
+	}
+	if total == 0 {
+		return op{}, false
+	}
+	r := rng.Intn(total)
+	for k, n := range avail {
+		if n == 0 {
+			continue
+		}
+		if r < opWeight[k] {
+			j := rng.Intn(n)
+			for _, o := range nx {
+				if int(o.K) != k || (skip != nil && skip(o)) {
+					continue
+				}
+				if j == 0 {
+					return o, true
+				}
+				j--
+			}
+		}
+		r -= opWeight[k]
+	}
+	return op{}, false
+}
+
+func randSeq(rng *mon.RNG, cfg string, n int) []op {
+	s := symOf(cfg, true)
 	var seq []op
 	for len(seq) < n {
-		nx := s.next()
-		nc := len(nx) - 4 // cancellations available
-		var o op
-		switch r := rng.Intn(100); {
-		case r < 40 && nc > 0:
-			o = nx[rng.Intn(nc)]
-		case r < 65:
-			o = nx[nc] // add live
-		case r < 75:
-			o = nx[nc+1] // add ended
-		case r < 80:
-			o = nx[nc+2] // Cancel
-		default:
-			o = nx[nc+3] // Size
+		o, ok := pickOp(rng, s.next(), nil)
+		if !ok {
+			break
 		}
 		seq = append(seq, o)
 		s = s.apply(o)
@@ -1141,50 +1570,57 @@ func randSeq(rng *mon.RNG, cfg []bool, n int) []op {
 	return seq
 }
 
-func randPhases(rng *mon.RNG, cfg []bool) [][]op {
-	s := symOf(cfg)
+func randPhases(rng *mon.RNG, cfg string) [][]op {
+	s := symOf(cfg, true)
 	var phases [][]op
 	np := rng.Range(2, 6)
 	for p := 0; p < np; p++ {
 		var ph []op
-		used := map[int]bool{}
+		s0 := s // operations of one phase refer to handles that exist when the phase starts
+		nAdds := 0
 		add := func(o op) {
+			if o.isAdd() {
+				o.H = len(s0.hs) + nAdds
+				nAdds++
+			}
 			ph = append(ph, o)
 			s = s.apply(o)
 		}
-		nx := s.next()
-		nc := len(nx) - 4
-		if s.nLive() == 1 && rng.Chance(2, 3) {
-			// Add racing the end of the last live member
+		nx := s0.next()
+		used := map[int]bool{}
+		notAdvance := func(o op) bool {
+			return o.K == kAdvance || (o.K == kCancelMember && used[o.H])
+		}
+		switch {
+		case rng.Chance(1, 12):
+			add(op{K: kAdvance})
+		case s0.nCan() == 1 && rng.Chance(2, 3):
+			// Add racing the end of the last member the harness can end
 			add(nx[0])
 			used[nx[0].H] = true
-			add(op{kAddLive, len(s.live)})
+			onlyAdds := func(o op) bool { return !o.isAdd() }
+			if o, ok := pickOp(rng, nx, onlyAdds); ok {
+				add(o)
+			}
 			if rng.Bool() {
-				add(op{kSize, 0})
+				add(op{K: kSize})
 			}
 			if rng.Chance(1, 3) {
-				add(op{kAddEnded, len(s.live)})
+				if o, ok := pickOp(rng, nx, onlyAdds); ok {
+					add(o)
+				}
 			}
-		} else {
+		default:
 			k := rng.Range(1, 4)
 			for j := 0; j < k; j++ {
-				switch r := rng.Intn(100); {
-				case r < 40 && nc > 0:
-					o := nx[rng.Intn(nc)]
-					if used[o.H] {
-						continue
-					}
-					used[o.H] = true
-					add(o)
-				case r < 65:
-					add(op{kAddLive, len(s.live)})
-				case r < 75:
-					add(op{kAddEnded, len(s.live)})
-				case r < 82:
-					add(op{kCancel, 0})
-				default:
-					add(op{kSize, 0})
+				o, ok := pickOp(rng, nx, notAdvance)
+				if !ok {
+					break
 				}
+				if o.K == kCancelMember {
+					used[o.H] = true
+				}
+				add(o)
 			}
 		}
 		if len(ph) > 0 {
@@ -1197,27 +1633,34 @@ func randPhases(rng *mon.RNG, cfg []bool) [][]op {
 // ---------------------------------------------------------------- entry point
 
 func TestCheck(t *testing.T) {
+	if os.Getenv("C20_COUNT") != "" {
+		countPlans(t)
+		return
+	}
 	rec = mon.Open("C20")
 	defer rec.Close()
 	defer flushTally()
 	sp := theSpace()
-	rec.Note("rule", fmt.Sprintf("a case is one history run against the real context.Pool in its own synctest bubble (race detector on), ended by the same tail (cancel every live context -> pool must be done; offer a context -> Size unchanged; Cancel -> Size 0; offer again -> Size 0; no goroutine of the pool may be left in the bubble). "+
+	rec.Note("rule", fmt.Sprintf("a case is one history run against the real context.Pool in its own synctest bubble (race detector on), ended by the same tail (cancel every context the harness can end, let 1h of virtual time pass if deadline or never-ending contexts took part -> the pool must be done unless a never-ending or pool-derived member may be tracked, and must NOT be done if a protected never-ending member exists; Size; offer a context; Size; Cancel -> pool done, Size 0; offer again -> Size 0; no goroutine of the pool may be left in the bubble). "+
 		"(lockstep, EXHAUSTIVE) every pool of 0..%d initial contexts, each live or already cancelled, x every sequence of 0..%d operations over {cancel(h) for each context h the harness created and has not cancelled yet, Add(live ctx), Add(ended ctx), Cancel, Size}, the bubble quiescent between operations; "+
 		"(hook, exhaustive for its parameters) pools of 0..%d initial contexts x sequences of 0..%d operations x the watcher parked at the k-th hit of pool.waited (k=1..%d) or at pool.exit / pool.unlocked (reached once) with the next 1 or 2 operations of the sequence issued exactly there; "+
-		"(burst) %d seeded sequences of 4..14 operations issued back to back with no quiescence; (randhook) %d seeded lock-step sequences of 6..16 operations on up to 4 initial contexts with a seeded park (hit 1..5, 1..3 placed operations); (racing) %d seeded histories of 2..6 phases whose 1..5 operations are released together from separate goroutines, biased to Add racing the cancellation of the last live member. "+
+		"(ext, enumerated) pools of 0..%d initial contexts of kind {live, ended, Background, custom nil-Done type, deadline} x every sequence of 0..%d operations over the classic alphabet plus {Add never-ending ctx (Background / WithValue / WithoutCancel(cancelled parent) / custom, flavour = handle number mod 4), Add deadline ctx, Add child of the lowest/highest cancellable member, Add again the context of the lowest/highest live member, Add the pool itself, Add a child of the pool, let 15ms of virtual time pass}; (exthook) the same alphabet, 0..%d initial contexts x 0..%d operations x parked at the first hit of each hook point with 1 or 2 operations placed; "+
+		"(burst) %d seeded sequences of 4..14 operations issued back to back with no quiescence; (randhook) %d seeded lock-step sequences of 6..16 operations on up to 4 initial contexts with a seeded park (hit 1..5, 1..3 placed operations); (racing) %d seeded histories of 2..6 phases whose 1..5 operations are released together from separate goroutines, biased to Add racing the cancellation of the last live member; the seeded modes use the extended alphabet and all initial kinds (also the same context passed twice). "+
 		"Tuples are enumerated without repetition, so distinct = evaluated for the enumerated modes; seeded cases are distinct by their operation list. Non-trivial = the pool was observed live at a quiescent point (it had a live member) or operations were placed at a hook; a hook case whose hook is not reached before the tail is counted trivial.",
-		sp.seqN, sp.seqL, sp.hookN, sp.hookL, sp.hookK, sp.nBurst, sp.nRandHook, sp.nRacing))
-	rec.Note("oracle", "never-early: whoever first sees Done() (observer goroutine, hook handler, client after each call) demands that every protected member has ended by the harness's log or Cancel was called; protected = live at creation, or Add called while Done() was open and returned while a protected member was live. eventually: at every quiescent point (synctest.Wait returned, nothing parked) Done() must be closed if Cancel returned or every context accepted or possibly accepted has ended. Size must lie in [certainly accepted, certainly+possibly accepted], 0 after Cancel, and a solo Size fixes the count. An Add that overlaps/follows the end of the last protected member may be ignored, counted, tracked or not: all accepted and counted (unprotected.*, size.unprotected_*).")
+		sp.seqN, sp.seqL, sp.hookN, sp.hookL, sp.hookK, sp.extN, sp.extL, sp.exthookN, sp.exthookL, sp.nBurst, sp.nRandHook, sp.nRacin))
+	rec.Note("oracle", "never-early: whoever first sees Done() (observer goroutine, hook handler, client after each call) demands that every protected member has ended by the harness's log (cancelled by the harness, deadline passed in virtual time, an ancestor ended) or Cancel was called; a never-ending member (Done()==nil) never ends, so the pool must stay live until Cancel, also across 1h of virtual time. protected = live at creation, or Add called while Done() was open and returned while a protected member was live. eventually: at every quiescent point (synctest.Wait returned, nothing parked) Done() must be closed if Cancel returned or every context accepted or possibly accepted has ended. Size must lie in [certainly accepted, certainly+possibly accepted], 0 after Cancel, and a solo Size fixes the count; never-ending, deadline and child members count for certain, a context offered a second time and contexts derived from the pool itself only raise the upper bound. An Add that overlaps/follows the end of the last protected member may be ignored, counted, tracked or not: all accepted and counted (unprotected.*, size.uncertain_*). The pool itself or a child of it as a member: it ends exactly when the pool does, so it can never make Done() early and the statement demands neither that the pool stays live nor that it ends; it does not protect later Adds (conservative); observed and counted (poolderived.*).")
 	rec.Note("require", []string{
 		"park.pool.waited", "park.pool.exit", "park.pool.unlocked",
-		"placed.addlive", "placed.addended", "placed.cancel", "placed.size", "placed.cancelmember",
+		"placed.addlive", "placed.addended", "placed.cancel", "placed.size", "placed.cancelmember", "placed.addnever",
 		"exit.calls_blocked_on_rwmutex", "done.observed", "done.after_last_member", "done.after_cancel",
 		"add.protected", "add.unprotected", "add.offered_after_done", "add.offered_after_cancel",
+		"add.protected.kind_B", "add.protected.kind_V", "add.protected.kind_W", "add.protected.kind_U", "add.protected.kind_D", "add.protected.kind_C", "add.protected.kind_=",
+		"ctxkind.P", "ctxkind.Q", "deadline.expired_in_virtual_time", "never.pool_live_on_never_ending_member_only", "tail.pool_live_until_cancel", "tail.pool_done_before_cancel",
 		"size.checked", "size.zero_after_cancel", "quiescent.checks", "quiescent.live", "racing.phases", "watcher.exited_at_end",
 	})
 	if mon.Only() < 0 {
 		rec.Note("exhaustive", true)
-		rec.Note("exhaustive_space", fmt.Sprintf("lockstep mode: all pools of 0..%d initial contexts (each live or pre-cancelled) x all operation sequences of length 0..%d over {cancel(h) of a not yet cancelled context, Add live, Add ended, Cancel, Size}, quiescent between operations; the hook, burst, randhook and racing cases come on top", sp.seqN, sp.seqL))
+		rec.Note("exhaustive_space", fmt.Sprintf("lockstep mode: all pools of 0..%d initial contexts (each live or pre-cancelled) x all operation sequences of length 0..%d over {cancel(h) of a not yet cancelled context, Add live, Add ended, Cancel, Size}, quiescent between operations; the hook, ext, exthook, burst, randhook and racing cases come on top", sp.seqN, sp.seqL))
 	}
 	ps := plans()
 	for idx, pl := range ps {
@@ -1232,6 +1675,28 @@ func TestCheck(t *testing.T) {
 			break
 		}
 	}
+}
+
+// countPlans (C20_COUNT=1): print the number of histories per mode without running anything.
+func countPlans(t *testing.T) {
+	n := map[string]int{}
+	g := map[string]int{}
+	for _, pl := range plans() {
+		g[pl.mode]++
+		if !pl.enumerated() {
+			n[pl.mode]++
+			continue
+		}
+		visit := func([]op) { n[pl.mode]++ }
+		if pl.short {
+			if pl.maxLen >= 0 {
+				enumerate(pl.cfg, pl.ext, nil, pl.maxLen, visit)
+			}
+		} else {
+			enumerate(pl.cfg, pl.ext, pl.prefix, pl.maxLen, visit)
+		}
+	}
+	t.Logf("tier=%s plan entries=%v histories=%v", mon.Tier(), g, n)
 }
 
 // setProcs: the lock-step modes are deterministic by construction (quiescence
@@ -1259,7 +1724,8 @@ func runPlan(t *testing.T, idx int, pl plan) {
 		setProcs(1)
 	}
 	switch pl.mode {
-	case "lockstep", "hook":
+	case "lockstep", "hook", "ext", "exthook":
+		hooked := pl.hook != ""
 		rec.Begin(idx, pl.String())
 		var non, triv int64
 		visit := func(seq []op) {
@@ -1270,7 +1736,7 @@ func runPlan(t *testing.T, idx int, pl plan) {
 			out := runHistory(t, idx, pl.mode, pl.cfg, seq, runOpts{hook: pl.hook, k: pl.k, m: pl.m, lockstep: true})
 			switch {
 			case out.inconc != "":
-			case pl.mode == "hook" && !out.placed:
+			case hooked && !out.placed:
 				triv++
 				count("hook.not_reached_before_tail", 1)
 			case out.nontrivial:
@@ -1281,10 +1747,10 @@ func runPlan(t *testing.T, idx int, pl plan) {
 		}
 		if pl.short {
 			if pl.maxLen >= 0 {
-				enumerate(pl.cfg, nil, pl.maxLen, visit)
+				enumerate(pl.cfg, pl.ext, nil, pl.maxLen, visit)
 			}
 		} else {
-			enumerate(pl.cfg, pl.prefix, pl.maxLen, visit)
+			enumerate(pl.cfg, pl.ext, pl.prefix, pl.maxLen, visit)
 		}
 		count("histories."+pl.mode, int(non+triv))
 		if non > 0 {
